@@ -165,6 +165,11 @@ impl<'a> Driver<'a> {
         self.ctx.maxc("storage_ops_per_create_proof", ops_used);
         let h = crate::rng::fnv(format!("{}|{:?}", self.t.kind, req).as_bytes());
         self.ctx.eval(Some(h));
+        if self.calls % 3001 == 17 {
+            let kind = self.t.kind;
+            let outcome = match &res { Ok(Ok(Some(_))) => "Ok(Some(proof))".to_string(), Ok(Ok(None)) => "Ok(None)".into(), Ok(Err(e)) => format!("Err({e})"), Err(p) => format!("panic: {p}") };
+            self.ctx.sample(|| json!({"kind":"request","core":kind,"request":format!("{req:?}"),"outcome":outcome,"storage_ops":ops_used}));
+        }
         match res {
             Ok(Ok(Some(_))) => self.ctx.count("create_proof:Ok(Some)"),
             Ok(Ok(None)) => self.ctx.count("create_proof:Ok(None)"),
@@ -462,6 +467,7 @@ fn run_case(ctx: &mut Ctx, id: u64) {
     let kind = d.t.kind;
     d.ctx.add("calls", calls);
     let mode_name = ["block x upgrade", "hash x upgrade", "seek x block/hash x upgrade", "random tuples", "altered + arbitrary proofs"][mode as usize];
-    d.ctx.sample(|| json!({"core": kind, "length": l, "mode": mode_name, "calls": calls}));
+    d.ctx.count(&format!("mode:{mode_name}"));
+    let _ = (kind, calls);
     let _ = gen::ALPHABET;
 }
